@@ -14,6 +14,7 @@ import (
 	"net/http"
 	"net/http/httptest"
 	"os"
+	"os/exec"
 	"sort"
 	"strings"
 	"syscall"
@@ -29,7 +30,20 @@ import (
 )
 
 func TestMain(m *testing.M) {
+	if raw := os.Getenv("C15_DR_CASE"); raw != "" {
+		// child process of TestDefaultRecovery: serve the sequence below fox.Recovery(), whose records go to this process's
+		// stdout/stderr through the built-in handler
+		defaultRecoveryChild(raw)
+		os.Exit(0)
+	}
 	stats.Init("C15")
+	stats.RegisterReplay("default-recovery", func(raw json.RawMessage) error {
+		var c DRCase
+		if err := json.Unmarshal(raw, &c); err != nil {
+			return err
+		}
+		return checkDefaultRecovery(&c)
+	})
 	stats.RegisterReplay("panic", func(raw json.RawMessage) error {
 		var c Case
 		if err := json.Unmarshal(raw, &c); err != nil {
@@ -691,4 +705,121 @@ func TestExhaustive(t *testing.T) {
 		}
 	}
 	stats.Note("exhaustive", "all panic values x response progress x handler kind/panic site x Updates cut 0..3")
+}
+
+// ---------------------------------------------------------------- the built-in handler's own output
+
+// DRCase: a sequence of requests served below fox.Recovery(), i.e. with the diagnostic records written by the built-in pretty
+// handler to the process's stdout/stderr. Each request has a path of its own and a header of Pad bytes; some handlers panic.
+type DRReq struct {
+	Pad   int  `json:"pad"`
+	Panic bool `json:"panic"`
+}
+
+type DRCase struct {
+	Reqs []DRReq `json:"reqs"`
+}
+
+func drMark(i int) string { return fmt.Sprintf("\n@@C15-MARK-%d@@\n", i) }
+
+func defaultRecoveryChild(raw string) {
+	var c DRCase
+	if err := json.Unmarshal([]byte(raw), &c); err != nil {
+		fmt.Println("C15-CHILD-ERROR", err)
+		return
+	}
+	f, err := fox.New(fox.WithMiddleware(fox.Recovery()))
+	if err != nil {
+		fmt.Println("C15-CHILD-ERROR", err)
+		return
+	}
+	f.MustHandle("GET", "/bm/{tok}", func(fc fox.Context) {
+		if fc.Request().Header.Get("X-Panic") != "" {
+			panic("c15: handler of " + fc.Param("tok") + " fails")
+		}
+		fc.Writer().WriteHeader(http.StatusNoContent)
+	})
+	for i, q := range c.Reqs {
+		req := httptest.NewRequest("GET", fmt.Sprintf("http://dr.test/bm/r%dq", i), nil)
+		req.Header.Set("X-Pad", strings.Repeat("p", q.Pad))
+		if q.Panic {
+			req.Header.Set("X-Panic", "1")
+		}
+		w := httptest.NewRecorder()
+		f.ServeHTTP(w, req)
+		if want := map[bool]int{true: http.StatusInternalServerError, false: http.StatusNoContent}[q.Panic]; w.Code != want {
+			fmt.Println("C15-CHILD-ERROR request", i, "answered", w.Code, "want", want)
+		}
+		_, _ = os.Stdout.WriteString(drMark(i))
+		_, _ = os.Stderr.WriteString(drMark(i))
+	}
+}
+
+// checkDefaultRecovery runs the sequence in a child process and reads what was printed while each request was served: a
+// record for a request whose handler panicked, about that request and no other; nothing for the others.
+func checkDefaultRecovery(c *DRCase) error {
+	raw, _ := json.Marshal(c)
+	cmd := exec.Command(os.Args[0], "-test.run=^$")
+	cmd.Env = append(os.Environ(), "C15_DR_CASE="+string(raw))
+	var so, se bytes.Buffer
+	cmd.Stdout, cmd.Stderr = &so, &se
+	if err := cmd.Run(); err != nil {
+		return fmt.Errorf("default recovery: child process failed: %v: %.300s", err, se.String())
+	}
+	if strings.Contains(so.String(), "C15-CHILD-ERROR") {
+		return fmt.Errorf("default recovery: %.300s", so.String()[strings.Index(so.String(), "C15-CHILD-ERROR"):])
+	}
+	outs, errs := so.String(), se.String()
+	for i, q := range c.Reqs {
+		var seg string
+		for _, stream := range []*string{&outs, &errs} {
+			k := strings.Index(*stream, drMark(i))
+			if k < 0 {
+				return fmt.Errorf("default recovery: the marker of request %d is missing from the child's output", i)
+			}
+			seg += (*stream)[:k]
+			*stream = (*stream)[k+len(drMark(i)):]
+		}
+		own := fmt.Sprintf("/bm/r%dq", i)
+		if !q.Panic {
+			if strings.TrimSpace(seg) != "" {
+				return fmt.Errorf("default recovery: request %d (%s, %d-byte header) did not panic, yet %d bytes were printed while it was served: %.200q", i, own, q.Pad, len(seg), seg)
+			}
+			continue
+		}
+		if !strings.Contains(seg, own) {
+			return fmt.Errorf("default recovery: the handler of request %d (%s, %d-byte header) panicked, what was printed meanwhile (%d bytes) does not name it: %.200q", i, own, q.Pad, len(seg), seg)
+		}
+		for j := range c.Reqs {
+			if other := fmt.Sprintf("/bm/r%dq", j); j != i && strings.Contains(seg, other) {
+				return fmt.Errorf("default recovery: the record printed for the panic of request %d (%s, %d-byte header; %d bytes printed) names request %d (%s, %d-byte header)", i, own, q.Pad, len(seg), j, other, c.Reqs[j].Pad)
+			}
+		}
+		if n := strings.Count(seg, own+" HTTP/1.1"); n != 1 {
+			return fmt.Errorf("default recovery: the record printed for the panic of request %d holds its request line %d times (%d bytes printed)", i, n, len(seg))
+		}
+	}
+	return nil
+}
+
+func TestDefaultRecovery(t *testing.T) {
+	rapid.Check(t, func(t *rapid.T) {
+		c := &DRCase{}
+		big := false
+		for i, n := 0, gen.IntR(t, 2, 12, "nreq"); i < n; i++ {
+			q := DRReq{Pad: gen.Pick(t, []int{0, 3, 900, 12000, 17000, 40000}, "pad"), Panic: gen.Chance(t, 2, 3, "panic")}
+			big = big || (q.Panic && q.Pad > 16000)
+			c.Reqs = append(c.Reqs, q)
+		}
+		stats.EvalN(len(c.Reqs))
+		stats.Sample(c)
+		stats.Class("default-handler-output-read-from-a-child-process")
+		if big {
+			stats.NonTrivial(fmt.Sprintf("dr|%+v", c.Reqs))
+		}
+		if err := checkDefaultRecovery(c); err != nil {
+			stats.Fail("default-recovery", c, "%v", err)
+			t.Fatalf("%v", err)
+		}
+	})
 }
